@@ -93,6 +93,14 @@ class SlotImpl:
                 vals = [E[int(x)] for x in ws[3:]]
                 form = (len(self.items()) + len(vals)) % 3
                 c[int(ws[1]):int(ws[2])] = vals if form == 0 else (tuple(vals) if form == 1 else (v for v in vals))
+            elif op == 'extendself':
+                # the collection extended by itself: what is reported is what came in, not the collection as it is afterwards
+                if ws[1] == 'extend':
+                    c.extend(c)
+                else:
+                    c += c
+            elif op == 'setslicescalar':
+                c[int(ws[1]):int(ws[2])] = E[int(ws[3])]      # no iterable: the list refuses it
             elif op == 'delslice3':
                 del c[int(ws[1]):int(ws[2]):int(ws[3])]
             elif op == 'setslice3':
@@ -112,7 +120,7 @@ def slot_ops(kind, n, univ):
     ops = [f'append {x}' for x in range(univ)] + [f'insert {i} {x}' for i in W for x in range(univ)]
     ops += [f'remove {x}' for x in range(univ)] + [f'pop {i}' for i in W] + ['clear']
     ops += [f'setitem {i} {x}' for i in W for x in range(univ)] + [f'delitem {i}' for i in W]
-    ops += ['extend', 'extend 0', 'extend 0 1', 'extend 1 1 2', 'extend 2 0 2']
+    ops += ['extend', 'extend 0', 'extend 0 1', 'extend 1 1 2', 'extend 2 0 2', 'extendself extend', 'extendself iadd']
     if kind == 'list':
         # `l[a:b] = ys` and `del l[a:b]` (ys empty), every pair of bounds
         ops += [f'setslice {a} {b}{ys}' for a in range(n + 2) for b in range(n + 2) for ys in ('', ' 0', ' 1 2', ' 0 0 1')]
@@ -121,6 +129,8 @@ def slot_ops(kind, n, univ):
         ops += [f'setslice3 {a} {b} {k}{ys}' for a in range(n + 1) for b in range(n + 2) for k in (2, 3)
                 for ys in ('', ' 0', ' 1 2', ' 2 0 1')]
         ops += [f'imul {k}' for k in (-1, 0, 1, 2, 3)]
+        # a slice assigned one element instead of an iterable of elements: refused, silently for the observers
+        ops += [f'setslicescalar {a} {b} 0' for a in range(n + 1) for b in range(n + 2)]
     return ops
 
 
@@ -263,6 +273,66 @@ def history_level(ctx, base=0, count=None, nops=None):
             ctx.sample({'metamodel': w.mm_lines(), 'ops': lines[:8], 'last_notifications': [list(x) for x in w.notifs]})
 
 
+def listener_pass(ctx):
+    """several observers on one object (and on its resource), some of which take themselves — or one another — off the
+    list while they are being told: every observer that is still subscribed hears of every change exactly once"""
+    from pyecore import ecore as E
+    from pyecore.notification import EObserver
+    from pyecore.resources.resource import Resource
+    for k in range(30 if ctx.quick() else 400):
+        rng = common.sub_rng(ctx.seed, 'C05', 'listeners', k)
+        A = E.EClass('A')
+        A.eStructuralFeatures.extend([E.EAttribute('n', E.EInt), E.EAttribute('xs', E.EInt, upper=-1, unique=False)])
+        a = A()
+        res = Resource()
+        if rng.random() < .5:
+            res.append(a)
+        heard = {}
+        observers = []
+
+        def make(i, kind):
+            class Obs(EObserver):
+                def notifyChanged(self, n, i=i, kind=kind):
+                    heard.setdefault(i, []).append((n.kind.name, n.feature.name, n.old, n.new if not isinstance(n.new, list) else tuple(n.new)))
+                    if kind == 'leaves-once-told' and self in holder.listeners:
+                        holder.listeners.remove(self)
+                    if kind == 'removes-next' and i + 1 < len(observers) and observers[i + 1][0] in holder.listeners:
+                        pass        # (taking *another* observer off is a decision about that observer: not judged here)
+            return Obs()
+        kinds = [rng.choice(['passive', 'passive', 'leaves-once-told']) for _ in range(rng.randint(2, 5))]
+        if 'passive' not in kinds:
+            kinds[-1] = 'passive'
+        on_resource = rng.random() < .3 and a.eResource is res
+        holder = res if on_resource else a
+        for i, kd in enumerate(kinds):
+            o = make(i, kd)
+            holder.listeners.append(o)
+            observers.append((o, kd))
+        nchanges = 0
+        for _ in range(rng.randint(2, 6)):
+            c = rng.random()
+            if c < .5:
+                a.n = rng.randint(1, 9)
+            elif c < .8:
+                a.xs.append(rng.randint(1, 9))
+            elif len(a.xs):
+                a.xs.pop()
+            else:
+                a.xs.extend([1, 2])
+            nchanges += 1
+        ctx.evaluations += 1
+        ctx.count('listeners/' + ('resource' if on_resource else 'object'))
+        ctx.nontriv(('listeners', k))
+        for i, (o, kd) in enumerate(observers):
+            got = len(heard.get(i, []))
+            want = nchanges if kd == 'passive' else 1
+            if got != want:
+                ctx.violate({'clause': 'exactly-once', 'listeners': True},
+                            f'exactly-once: observer {i} ({kd}) of the {"resource" if on_resource else "object"} heard {got} of {nchanges} '
+                            f'changes, {want} expected (observers: {kinds})', {'listeners': k, 'kinds': kinds})
+                return
+
+
 def run(ctx):
     common.use_repo()
     ctx.rule = ('(a) exhaustive slot level: every slot state over a universe of 3 (quick) / 4 elements x every mutator x every index '
@@ -274,6 +344,7 @@ def run(ctx):
     slot_level(ctx)
     history_level(ctx)
     crossworld.notification_pass(ctx)
+    listener_pass(ctx)
     ctx.assumptions += ['set.discard() is not in the property\'s operation list and bypasses notification (not judged)',
                         'notifications that report no change (SET old==new, ADD of a present element of a set) are not violations',
                         'order between different (notifier, feature) pairs is not compared']
